@@ -19,10 +19,14 @@ fn ord_num(o: Ordering) -> i64 {
 pub struct Recorder {
     pub fnv: u128,
     pub len: u64,
+    /// the call structure: a Hasher may treat every `write` call as a unit, so equal values must also
+    /// issue the same sequence of calls (digest over the lengths of the calls)
+    pub calls: u64,
+    pub call_fnv: u64,
 }
 impl Recorder {
     pub fn new() -> Recorder {
-        Recorder { fnv: 0x6c62272e07bb014262b821756295c58d, len: 0 }
+        Recorder { fnv: 0x6c62272e07bb014262b821756295c58d, len: 0, calls: 0, call_fnv: 0xcbf29ce484222325 }
     }
 }
 impl Hasher for Recorder {
@@ -35,6 +39,11 @@ impl Hasher for Recorder {
             self.fnv = self.fnv.wrapping_mul(0x0000000001000000000000000000013B);
         }
         self.len += bytes.len() as u64;
+        self.calls += 1;
+        for b in (bytes.len() as u64).to_le_bytes() {
+            self.call_fnv ^= b as u64;
+            self.call_fnv = self.call_fnv.wrapping_mul(0x100000001b3);
+        }
     }
 }
 
@@ -108,7 +117,15 @@ pub fn exec_more(ev: &Value) -> Value {
             a.hash(&mut rec);
             let mut dh = std::collections::hash_map::DefaultHasher::new();
             a.hash(&mut dh);
-            json!({"h": format!("{:032x}", rec.fnv), "len": rec.len, "dh": format!("{:016x}", dh.finish())})
+            json!({"h": format!("{:032x}", rec.fnv), "len": rec.len, "dh": format!("{:016x}", dh.finish()),
+                   "calls": format!("{}:{:016x}", rec.calls, rec.call_fnv)})
+        }
+        "eq_hash" => {
+            // the crate's own equality next to the digests of both operands
+            let a = json_to_dec(&ev["a"]);
+            let b = json_to_dec(&ev["b"]);
+            let dig = |x: &BigDecimal| { let mut r = Recorder::new(); x.hash(&mut r); format!("{:032x}/{}/{}:{:016x}", r.fnv, r.len, r.calls, r.call_fnv) };
+            json!({"eq": a == b, "ha": dig(&a), "hb": dig(&b)})
         }
         "hashset" => {
             // user-level consequence: equal values collide in a HashSet
